@@ -261,6 +261,7 @@ Definition loop_method (n : node) (a : arg) (path : list string) : out trace :=
     match header_x a with
     | inr k => Panic k
     | inl None => Ret [] None
+    | inl (Some CNil) => Ret [] None                   (* if x == nil { return } (fix: 1a38871) *)
     | inl (Some c) =>
       match loop n c 0 path with
       | Fall tr => Ret tr None
